@@ -142,7 +142,11 @@ ImplAttrResolved(K, st, c, p) ==
       upto == IF idx = {} THEN Len(m) ELSE Min(idx) IN
   [st EXCEPT !.resolved = @ \cup {x \in {m[i] : i \in 1..upto} : Real(K, x) /\ ~Plain(K, x)}]   \* Components only
 
-ImplStep(K, D, st, c, a) == IF a = "media" THEN ImplFill(K, D, st, c) ELSE ImplAttrResolved(K, st, c, a)
+ImplStep(K, D, st, c, a) ==
+  IF a = "media" THEN ImplFill(K, D, st, c)
+  ELSE IF a = "render"          \* reads template, js, css and then the media
+  THEN ImplFill(K, D, ImplAttrResolved(K, ImplAttrResolved(K, ImplAttrResolved(K, st, c, "template"), c, "js"), c, "css"), c)
+  ELSE ImplAttrResolved(K, st, c, a)
 
 (* ---- shapes of the cases on which a deviation can show (documentation, and     *)
 (*      checked by TLC in MC_C16: a deviation changes the result only there) ---- *)
